@@ -18,6 +18,7 @@ EXPLANATION = (
     "miss, enters TinyLFU::increment exactly once with the caller's key before any lookup; no other Cache method stores into the estimator "
     "except purge, which enters TinyLFU::clear on every path. R4: the estimator is sized window + protected + probationary. The estimator's "
     "verdicts themselves are numeric (C11) and not decided here."
+    " R8: get and get_mut re-link the entry they hit in the window and in both main segments (a peek in their place is reported)."
 )
 TRUSTED_BASE = ["as C03", "TinyLFU::lt compares the two estimates with < (C11.R4)"]
 
